@@ -280,6 +280,18 @@ def run(tier, res, replay=None):
         'r_frac': [0.0, 0.33333, 0.66667], 'pu_frac': [0.2, 0.2, 0.2],
         'zr_frac': [0.1, 0.1, 0.1], 'porosity': [0.25, 0.2, 0.15]}
     rec_cases.append(('rod3-dd-metalfuel', c))
+    # annular pellets, and a gas gap between fuel and cladding
+    c = trackcheck.with_pins(copy.deepcopy(sl['rod2-adiabatic']))
+    c['types']['a1']['PinModel']['r_frac'] = [0.25, 0.5, 0.8]
+    rec_cases.append(('rod2-annular-pins', c))
+    c = copy.deepcopy(sl['rod3-flowgap'])
+    c['materials']['gas_fixed'] = {'thermal_conductivity': 0.25}
+    c['types']['a1']['FuelModel'] = {
+        'gap_thickness': 0.00008, 'gap_material': 'gas_fixed',
+        'clad_material': 'ht9',
+        'r_frac': [0.15, 0.5, 0.8], 'pu_frac': [0.2, 0.2, 0.2],
+        'zr_frac': [0.1, 0.1, 0.1], 'porosity': [0.25, 0.2, 0.15]}
+    rec_cases.append(('rod3-annular-metalfuel-gasgap', c))
     ngen = 8 if tier == 'quick' else 32
     per = 12 if tier == 'quick' else 40
     with ProcessPoolExecutor(max_workers=common.NCPU) as ex:
